@@ -234,6 +234,13 @@ func countKinds(s string) string {
 	return out
 }
 
+func maxInt(a, b int) int {
+	if a > b {
+		return a
+	}
+	return b
+}
+
 func hx(b []byte) string {
 	if len(b) == 0 {
 		return "-"
@@ -398,13 +405,68 @@ func gen(o hreg.Opts, w *bufio.Writer) error {
 			line("chaing", "%s %s", s, strings.Join(tt, " "))
 		}
 	}
+	// later-fork genesis: the first k forks at epoch 0 (k = 1..4), the rest equal / adjacent / apart / never
+	for i := 0; i < o.Pick(16, 200); i++ {
+		s := randSched(rng, st, true)
+		k := 1 + i%4
+		cur := uint64(0)
+		for j := 0; j < 6; j++ {
+			if j >= k {
+				switch rng.Intn(4) {
+				case 0: // equal to the previous one (but not 0 again)
+					if cur == 0 {
+						cur = 1
+					}
+				case 1:
+					cur++
+				case 2:
+					cur += uint64(2 + rng.Intn(3))
+				default:
+					if j >= 4 || rng.Intn(3) == 0 {
+						cur = maxU
+					} else {
+						cur++
+					}
+				}
+			}
+			if cur < s.e[maxInt(j-1, 0)] {
+				cur = s.e[maxInt(j-1, 0)]
+			}
+			s.e[j] = cur
+		}
+		var tt []string
+		seen := map[uint64]bool{}
+		var ts []uint64
+		for _, e := range s.e {
+			if e < 20 {
+				for _, t := range []uint64{e*s.spe - 1, e * s.spe, e*s.spe + 1} {
+					if t >= 1 && t <= 128 && !seen[t] {
+						seen[t] = true
+						ts = append(ts, t)
+					}
+				}
+			}
+		}
+		ts = append(ts, uint64(2+rng.Intn(5)))
+		sort.Slice(ts, func(a, b int) bool { return ts[a] < ts[b] })
+		last := uint64(0)
+		for _, t := range ts {
+			if t != last {
+				tt = append(tt, strconv.FormatUint(t, 10))
+			}
+			last = t
+		}
+		st.Add("chain-genesis-fork", strconv.Itoa(k))
+		line("chaing", "%s %s", s, strings.Join(tt, " "))
+		line("chain", "%s %s", s, strings.Join(tt, " ")) // phase0 genesis on the same schedule: never upgrades
+	}
 	// --- envelope round trips
 	k := o.Pick(60, 1200)
 	for i := 0; i < k; i++ {
 		line("env", "%s %d", forkNames[i%6], rng.Int63())
 	}
 	// --- envelope signatures
-	q := o.Pick(140, 3000)
+	q := o.Pick(320, 4000)
 	for i := 0; i < q; i++ {
 		s := randSched(rng, st, false)
 		if s.spe == 0 {
